@@ -48,6 +48,7 @@ func (q *Quote) left() int {
 
 func (q *Quote) setLeft(left int) {
 	q.x = left
+	q.child.setLeft(left + 1)
 }
 
 func (q *Quote) width() int {
